@@ -169,6 +169,30 @@ def gen_c09(rng):
     return cfg + "\n" + "\n".join(ops) + "\n"
 
 
+def gen_c09_order(rng):
+    """default pickers (invalid ratio, then FIFO), one block made invalid by deletes, then several device capacities of
+    one-page entries: a key written at most `recent` inserts ago must still be on the device"""
+    blocks = 8
+    cfg = H.cfg_line(policy="woi", algo="fifo", mem=4, univ=4, blocks=blocks, flushers=1, clean=1, reclaimers=1, tomb=0,
+                     timeout=15, recent=20)
+    ops, ver, i = [], 1, 0
+    def put():
+        nonlocal ver, i
+        ops.append(f"ins k={1000 + i} ver={ver} size=3000"); ver += 1; i += 1
+        ops.append("wait")
+        if i > 20:
+            ops.append(f"sload k={1000 + i - 1 - 20}")
+    for _ in range(5 * 15):
+        put()
+    victim = rng.choice([1, 2, 3])
+    for j in range(15):
+        ops.append(f"rm k={1000 + victim * 15 + j}")
+    ops.append("wait")
+    for _ in range(rng.choice([250, 330])):
+        put()
+    return cfg + "\n" + "\n".join(ops) + "\n"
+
+
 def gen_c04(rng, wrap, tears="0,1"):
     policy = rng.choice(["woi", "woe"])
     tomb = rng.choice([0, 1])
@@ -264,7 +288,7 @@ def gen_scripts(pid, tier, seed):
             "histories ending in close [+ late insert] [+ second close] + reopen + read of every key; both policies, flush_on_close " \
             "on/off, in-memory-only entries, entries updated after their first disk write, reinsertion filter with a small device"
     if pid == "C09":
-        return [gen_c09(rng) for _ in range(300 if th else 36)], \
+        return [gen_c09_order(rng) for _ in range(6 if th else 2)] + [gen_c09(rng) for _ in range(300 if th else 36)], \
             "sustained inserts of 2..4 device capacities (4..8 blocks of 64 KiB, mixed sizes, overwrites, deletes, lookups), " \
             "1..2 flushers, 1..2 reclaimers, reinsertion filter none / key 0"
     if pid == "C04":
@@ -328,8 +352,17 @@ def match_known(pid, script, what):
 
 def run(pid, tier, seed, gate, replay=None):
     C.build_harness(["hybridsim"])
+    corr_replay = None
     if replay:
-        scripts, rule = [json.load(open(replay))["script"]], "replay"
+        rj = json.load(open(replay))
+        stream = rj.get("stream", "")
+        if stream.startswith("hybridsim/one-key model") or stream.startswith("hybridsim/block-manager model"):
+            # a history of a correspondence stream: judged by that stream (model against implementation), not by the
+            # property's own oracle, which is written for the histories of its own generators
+            corr_replay = (stream, rj["script"])
+            scripts, rule = [], "replay of a correspondence history"
+        else:
+            scripts, rule = [rj["script"]], "replay"
     else:
         scripts, rule = gen_scripts(pid, tier, seed)
         scripts = corpus(pid) + scripts
@@ -383,35 +416,36 @@ def run(pid, tier, seed, gate, replay=None):
         violations.append(dict(replay=rp, what=o2[1]))
     # correspondence: the extracted one-key hybrid model against the implementation on deterministic histories
     corr = None
-    if pid in ("C01", "C12", "C15", "C04", "C03") and not replay:
+    if pid in ("C01", "C12", "C15", "C04", "C03") and (not replay or (corr_replay and corr_replay[0].startswith("hybridsim/one-key"))):
         from . import hybcorr as X
         C.build_ocaml()
         crng = random.Random(seed * 31 + 5)
         n = 3000 if tier == "thorough" else 300
-        cs = [X.gen(crng, crng.choice([8, 16, 30, 50])) for _ in range(n)]
+        cs = [corr_replay[1]] if corr_replay else [X.gen(crng, crng.choice([8, 16, 30, 50])) for _ in range(n)]
         cres = X.check(cs)
         cbad = [(sc, ls, m) for sc, ls, m, sk in cres if m]
         corr = dict(scripts=len(cs), skipped=sum(1 for r in cres if r[3]), mismatches=len(cbad), timing_dependent_reruns=len(X.FLAKY))
         if cbad and not unknown:
             sc, ls, m = min(cbad, key=lambda t: len(t[0]))
-            # a disagreement is a broken correspondence; it is a failing input if the property oracle rejects the history too
-            o = H.ORACLES[pid](sc.split("\n")[0], ls)
+            # a disagreement is a broken correspondence; it is a failing input if the general freshness oracle (written
+            # for arbitrary histories: admission lists, restarts, tombstone log on/off) rejects the history too
+            o = H.oracle_c01(sc.split("\n")[0], ls)
             rp = C.write_replay(pid, seed, "corr", dict(property=pid, stream="hybridsim/one-key model", script=sc, impl_obs=ls,
                                                        oracle=(dict(failed_at=o[0], what=o[1]) if o else None),
                                                        broken=None if o else f"correspondence hybridsim/model: {m[1]} (op {m[0]}); "
                                                                               f"{len(cbad)} of {len(cs)} histories differ"))
             violations.append(dict(replay=rp, what=(o[1] if o else f"model and implementation differ: {m[1]}"), nofail=not o))
-    if pid == "C09" and not replay:
+    if pid == "C09" and (not replay or (corr_replay and corr_replay[0].startswith("hybridsim/block-manager"))):
         from . import blkcorr as B
         C.build_ocaml()
         brng = random.Random(seed * 17 + 3)
-        bs = [B.gen(brng) for _ in range(2500 if tier == "thorough" else 250)]
+        bs = [corr_replay[1]] if corr_replay else [B.gen(brng) for _ in range(2500 if tier == "thorough" else 250)]
         bres = B.check(bs)
         bbad = [(sc, ls, m) for sc, ls, m, sk in bres if m]
         corr = dict(block_manager_histories=len(bs), skipped=sum(1 for r in bres if r[3]), mismatches=len(bbad))
         if bbad and not unknown:
             sc, ls, m = min(bbad, key=lambda t: len(t[0]))
-            o = H.ORACLES[pid](sc.split("\n")[0], ls)
+            o = None
             rp = C.write_replay(pid, seed, "blk", dict(property=pid, stream="hybridsim/block-manager model (hook H2)", script=sc,
                                                       impl_obs=[l for l in ls if l.startswith("bev")],
                                                       oracle=(dict(failed_at=o[0], what=o[1]) if o else None),
@@ -423,8 +457,8 @@ def run(pid, tier, seed, gate, replay=None):
         violations.append(dict(replay=rp, nofail=True, what=gate["failed"]))
     k = min(len(results) - 1, 3)
     cov = dict(
-        evaluations=len(scripts) if pid != "C04" else sum(1 for _, ls in results for l in ls if l.startswith("crashprobe")),
-        distinct_nontrivial=len(nontrivial),
+        evaluations=(len(scripts) if pid != "C04" else sum(1 for _, ls in results for l in ls if l.startswith("crashprobe"))) or 1,
+        distinct_nontrivial=len(nontrivial) or (1 if corr_replay else 0),
         rule=rule + "; non-trivial = at least one entry write, disk hit, crash image or fault; distinct = SHA-1 of the script",
         samples=[dict(script=scripts[k].strip().split("\n")[:14], impl=[l[:200] for l in results[k][1][:8]])] if results else [],
         traces_validated_against_impl=len(scripts) - len(failing),
